@@ -134,16 +134,45 @@ def matcher_agreement(ctx, n):
     return diffs, k
 
 
+def mon(sc, res):
+    fails = M.m_c12_lists(sc, res)
+    for st in res["steps"]:
+        op, io_ = st["op"], st["impl"]
+        if op["op"] != "create" or io_ is None or io_["exc"] is not None:
+            continue
+        for h, lst in M.written_by_hist(io_, op.get("at", "")).items():
+            for name, m, _ in lst:
+                for r in m["records"]:
+                    comps = r["path"].split("/")
+                    if "ascmhl" in comps or ".DS_Store" in comps:
+                        fails.append({"what": f"{h}/ascmhl/{name}: record for {r['path']!r} - the ascmhl folders and .DS_Store must always be excluded (create {json.dumps({k: v for k, v in op.items() if k not in ('op', 'now')}, ensure_ascii=False)})", "replay": sc})
+    return fails
+
+
+def fixed_scenarios():
+    t = {"a.txt": "a", "x.tmp": "t", "s/b.txt": "b", "s/.DS_Store": "junk", ".DS_Store": "junk", "s/n/c.txt": "c"}
+    out = []
+    for i, kw in enumerate([{"i": ["*.tmp", "*.tmp"]}, {"ii": ["a.txt", "b.txt", "a.txt"]}, {"i": ["*.tmp", "s/"], "ii": ["*.tmp", "q", "q"]}, {"i": [".DS_Store", "ascmhl", "*.tmp"]}]):
+        ops = [{"op": "create", "at": "s/n", "h": ["md5"], "now": "2026-03-01 12:00:00"}, dict({"op": "create", "at": "", "h": ["md5"], "now": "2026-03-01 12:00:01", "spell": ["slash", "dot", "relative", "cwd"][i]}, **kw),
+               dict({"op": "create", "at": "", "h": ["md5"], "now": "2026-03-01 12:00:02"}, **kw), {"op": "create", "at": "s", "h": ["md5"], "now": "2026-03-01 12:00:03", "spell": "slash"},
+               {"op": "create", "at": "", "h": ["md5"], "now": "2026-03-01 12:00:04", "spell": "slash"}, {"op": "verify", "at": "", "spell": "slash"}, {"op": "verifydh", "at": "", "spell": "slash"}, {"op": "diff", "at": "", "spell": "slash"}]
+        out.append({"profile": "c12-fixed", "root": "root", "tree": dict(t), "ops": ops})
+    return out
+
+
 def run(ctx):
-    scs = _scn.standard_pool(ctx, ctx.scale(60, 1000), ctx.scale(25, 400))
+    scs = fixed_scenarios() + _scn.standard_pool(ctx, ctx.scale(60, 1000), ctx.scale(25, 400))
+    for k, sc in enumerate(scs):
+        if k % 3 == 0 and "s/.DS_Store" not in sc["tree"]:
+            sc["tree"][".DS_Store"] = "finder junk"
     cf, ce = consistency(ctx, ctx.scale(40, 600))
     md, mk = matcher_agreement(ctx, ctx.scale(10000, 100000))
     # matcher disagreements are correspondence differences: report through extra mechanism
     rc_extra = {"consistency_pairs": ce, "matcher_pairs_checked": mk, "matcher_disagreements": len(md)}
     fails = cf + [{"what": d["what"], "replay": d["replay"], "signature": None} for d in md[:5]] if md else cf
-    return _scn.run_scn(ctx, scs, M.m_c12_lists, witness_ids=("D10", "D5a"), extra_fails=fails, extra_cov=rc_extra,
+    return _scn.run_scn(ctx, scs, mon, witness_ids=("D10", "D5a"), extra_fails=fails, extra_cov=rc_extra,
         assumptions=["pattern fragment: base-name literals, base-name globs (* ? [..]) and directory patterns name/; no negation, no anchored patterns", "'matched' = pathspec gitwildmatch on the path relative to the command root"])
 
 
 def replay(ctx, path):
-    return _scn.replay_generic(ctx, path, M.m_c12_lists)
+    return _scn.replay_generic(ctx, path, mon)
